@@ -199,6 +199,10 @@ def make_witness(R, pid, what):
     def w(name, model, neg):
         oid = "%s/%s" % (pid, what)
         key = "%s/%s/%s" % (pid, what, name.split("=>")[0][:60])
+        if what == "serve":
+            p_ = hubnative.serve_prologue_check(R, oid, key)
+            if p_["confirmed"]:
+                return p_
         only = {"handle_put": lambda c: c["op"] == "put", "handle_delete": lambda c: c["op"] == "delete", "handle_get": lambda c: c["op"] == "get"}.get(what)
         r = hubnative.conformance(R, pid, oid, key, only)
         if r["confirmed"]:
@@ -908,3 +912,138 @@ def safe_join_obligation(ctx, R, prover, pid, maxlen):
     prover.prove(ex, goals, "%s/safe_join" % pid,
                  "every relative-path string of length <= %d over {a . /} (all placements of '.', '..' and '/'); loop unrolled with unwinding assertion" % maxlen,
                  ["safe_join"], witness, covers={"accept-reachable": z3.Not(refused), "dotdot-refusal-reachable": z3.And(refused, z3.Not(absolute))})
+
+
+# ----------------------------------------------------------------- serve(): the dispatch loop
+
+def serve_obligation(ctx, R, prover, pid="C12", n_req=2):
+    """serve(root) from MIR: read_magic / read_frame / write_frame and the three handlers are summaries that RECORD their call and
+    return arbitrary outcomes (each is decided on its own); a frame is an arbitrary Request (Hello / Get / Put / Delete / Bye -
+    the List arm's iterator chain is C13's list-filter obligation and is left out of the symbolic variants).  Sessions of up to
+    n_req frames (the frame after that is assumed to be the end of input)."""
+    import re as _re
+    ex = ctx.ex(K=n_req + 2)
+    ROOT = z3.Int("ROOT")
+    RQ = ctx.enums.get("Request") or {}
+    if not {"Hello", "List", "Get", "Put", "Delete", "Bye"} <= set(RQ):
+        raise Inconclusive("enum Request variants not found")
+    calls = []
+
+    def rec(st, call, **kw):
+        e = fsmodels.record(ex, st, "call:" + call, path=I(0), ok=kw.get("ok", z3.BoolVal(True)))
+        d = {"guard": st.guard, "call": call, "seq": e["seq"]}
+        d.update(kw)
+        calls.append(d)
+        return d
+
+    def opaque(ex_, st, args, dest_ty, func, where):
+        return VOpaque(func[:30])
+
+    def s_magic(ex_, st, args, dest_ty, func, where):
+        okio, good = ex_.fresh_bool("magic_read_ok"), ex_.fresh_bool("magic_good")
+        rec(st, "read_magic", ok=okio, good=good)
+        return fsmodels.io_result(ex_, okio, VBool(good))
+
+    def s_read(ex_, st, args, dest_ty, func, where):
+        k = len([c for c in calls if c["call"] == "read_frame"])
+        okio, some = ex_.fresh_bool("frame_read_ok"), ex_.fresh_bool("frame_present")
+        if k >= n_req:
+            ex_.assumes.append(z3.Implies(st.guard, z3.And(okio, z3.Not(some))))      # BOUND: the input ends after n_req frames
+        variants = [RQ[v] for v in ("Hello", "Get", "Put", "Delete", "Bye")]
+        d = ex_.fresh_int("request_kind%d" % k, lo=min(RQ.values()), hi=max(RQ.values()))
+        ex_.assumes.append(z3.Or(*[d == v for v in variants]))
+        path = strv(z3.Int("REQ_PATH%d" % k))
+        exp_some = ex_.fresh_bool("expected_given%d" % k)
+        exp = opt_sym(exp_some, VStruct("[array]", [VInt(ex_.fresh_int("exp%d_%d" % (k, i), ty="u8"), "u8") for i in range(32)]))
+        hsh = VStruct("[array]", [VInt(ex_.fresh_int("hash%d_%d" % (k, i), ty="u8"), "u8") for i in range(32)])
+        ln = VInt(ex_.fresh_int("put_len%d" % k, ty="u64"), "u64")
+        req = VEnum("Request", d, {RQ["Hello"]: [VInt(ex_.fresh_int("version%d" % k, ty="u32"), "u32")], RQ["List"]: [], RQ["Get"]: [path],
+                                   RQ["Put"]: [path, exp, ln, hsh], RQ["Delete"]: [path, exp], RQ["Bye"]: []})
+        rec(st, "read_frame", ok=okio, some=some, kind=d, path=path.f[0].t, exp=exp, len=ln.t, hash=hsh, k=k)
+        return fsmodels.io_result(ex_, okio, opt_sym(some, req))
+
+    def s_write(ex_, st, args, dest_ty, func, where):
+        okio = ex_.fresh_bool("reply_ok")
+        rec(st, "write_frame", ok=okio, msg=fsmodels._deep(ex_, st, args[1]))
+        return fsmodels.io_result(ex_, okio)
+
+    def handler(name, npath):
+        def h(ex_, st, args, dest_ty, func, where):
+            okio = ex_.fresh_bool(name + "_ok")
+            kw = {"root": fsmodels.path_term(ex_, st, args[0]), "ok": okio}
+            if name == "get":
+                kw["path"] = fsmodels.text_term(ex_, st, args[1])
+            else:
+                kw["lockdir"] = fsmodels.path_term(ex_, st, args[1])
+                kw["path"] = fsmodels.text_term(ex_, st, args[2])
+                kw["exp"] = fsmodels._deep(ex_, st, args[3])
+                if name == "put":
+                    kw["len"], kw["hash"] = args[4].t, fsmodels._deep(ex_, st, args[5])
+            rec(st, "handle_" + name, **kw)
+            return fsmodels.io_result(ex_, okio)
+        return h
+    S = ex.summaries
+    S["read_magic"], S["wire::read_magic"], S["read_frame"], S["wire::read_frame"], S["write_frame"], S["wire::write_frame"] = s_magic, s_magic, s_read, s_read, s_write, s_write
+    S["handle_get"], S["handle_put"], S["handle_delete"] = handler("get", 1), handler("put", 2), handler("delete", 2)
+    S["discover_local_fingerprints"] = lambda ex_, st, a, d, f, w: (rec(st, "scan"), VEnum("Result", I(1), {0: [VOpaque("map")], 1: [VOpaque("err")]}))[1]
+    ex.models = [(_re.compile(r"^(std::io::)?(stdin|stdout)$|^Stdin::lock$|^Stdout::lock$|^std::io::Buf(Reader|Writer)::<.*>::new$"), opaque, "stdin / stdout plumbing (opaque)"),
+                 (_re.compile(r"^<&str as Into<Box<dyn StdError>>>::into$|^<Box<dyn StdError> as From<.*>>::from$"), opaque, "error boxing (opaque)"),
+                 (_re.compile(r"^Result::<BTreeMap<PathBuf, Fingerprint>, Box<dyn StdError>>::unwrap_or_default$|^<BTreeMap<PathBuf, Fingerprint> as IntoIterator>::into_iter$|"
+                              r"^<std::collections::btree_map::IntoIter<PathBuf, Fingerprint> as Iterator>::filter::<|^<std::iter::Filter<.*> as Iterator>::map::<|"
+                              r"^<std::iter::Map<std::iter::Filter<.*> as Iterator>::collect::<"), opaque, "the List arm's iterator chain (opaque here: the arm is excluded from the symbolic frames; see C13)"),
+                 (_re.compile(r"^<(std::string::)?String as Deref>::deref$"), lambda ex_, st, a, d, f, w: VRef("val", val=fsmodels._deep(ex_, st, a[0])), "String deref (same text)"),
+                 ] + ex.models
+    st = State()
+    res = ex.exec_fn(ctx.fn(ex, "serve"), [VRef("val", val=pathv(ROOT))], st)
+    if res is None:
+        raise Inconclusive("serve never returns")
+    ex.exit_guards.append(st.guard)
+    ok = simp(res.discr == 0)
+    eff = [e for e in fsmodels.effects(ex) if not e["call"].startswith("call:")]
+    LOCKDIR = PJ(ROOT, lit_id(".copia"))
+    magics = [c for c in calls if c["call"] == "read_magic"]
+    reads = [c for c in calls if c["call"] == "read_frame"]
+    handlers = [c for c in calls if c["call"].startswith("handle_")]
+    writes = [c for c in calls if c["call"] == "write_frame"]
+    first_magic = min([c["seq"] for c in magics]) if magics else 10 ** 9
+    accepted = _any(z3.And(c["guard"], c["ok"], c["good"]) for c in magics)
+
+    def served(r):
+        """the frame read r was dispatched: exactly one matching handler / reply, carrying the frame's fields, before the next read"""
+        nxt = min([x["seq"] for x in reads if x["seq"] > r["seq"]] or [10 ** 9])
+        mine = [h for h in handlers + writes if r["seq"] < h["seq"] < nxt]
+        def one(call, cond):
+            hs = [h for h in mine if h["call"] == call]
+            return z3.And(_any(z3.And(h["guard"], cond(h)) for h in hs), _all(z3.Not(z3.And(a["guard"], b["guard"])) for i, a in enumerate(hs) for b in hs[i + 1:]))
+        same_exp = lambda h: z3.BoolVal(h.get("exp") is r["exp"] or (isinstance(h.get("exp"), VEnum) and z3.eq(simp(h["exp"].discr), simp(r["exp"].discr))))
+        base = lambda h: z3.And(h["root"] == ROOT, h["path"] == r["path"])
+        return z3.And(
+            z3.Implies(r["kind"] == RQ["Get"], one("handle_get", base)),
+            z3.Implies(r["kind"] == RQ["Put"], one("handle_put", lambda h: z3.And(base(h), h["lockdir"] == LOCKDIR, h["len"] == r["len"], same_exp(h), z3.BoolVal(h.get("hash") is not None)))),
+            z3.Implies(r["kind"] == RQ["Delete"], one("handle_delete", lambda h: z3.And(base(h), h["lockdir"] == LOCKDIR, same_exp(h)))),
+            z3.Implies(r["kind"] == RQ["Hello"], one("write_frame", lambda h: z3.BoolVal(True))),
+            # nothing of another kind is invoked for this frame
+            _all(z3.Implies(h["guard"], z3.Or(z3.And(h["call"] == "handle_get", r["kind"] == RQ["Get"]) if h["call"] == "handle_get" else z3.BoolVal(False),
+                                               r["kind"] == RQ["Put"] if h["call"] == "handle_put" else z3.BoolVal(False),
+                                               r["kind"] == RQ["Delete"] if h["call"] == "handle_delete" else z3.BoolVal(False),
+                                               r["kind"] == RQ["Hello"] if h["call"] == "write_frame" else z3.BoolVal(False))) for h in mine))
+    goals = {
+        "before-the-prologue-is-accepted-only-the-served-directory-and-its-.copia-directory-are-created:-nothing-else-is-touched,-read-or-dispatched": z3.And(
+            z3.BoolVal(all(e["call"] == "create_dir_all" for e in eff if e["seq"] < first_magic)),
+            _all(z3.Implies(e["guard"], z3.Or(e["path"] == ROOT, e["path"] == LOCKDIR)) for e in eff if e["call"] == "create_dir_all"),
+            z3.BoolVal(all(e["call"] == "create_dir_all" for e in eff)),
+            _all(z3.Implies(c["guard"], accepted) for c in reads + handlers + writes)),
+        "a-bad-or-unreadable-prologue-ends-the-session-with-an-error-and-nothing-dispatched": z3.Implies(z3.Not(accepted), z3.And(z3.Not(ok), _all(z3.Not(c["guard"]) for c in reads + handlers + writes))),
+        "every-frame-is-dispatched-to-exactly-its-handler-with-its-own-fields,-the-served-root-and-the-.copia-lock-directory": _all(
+            z3.Implies(z3.And(r["guard"], r["ok"], r["some"], r["kind"] != RQ["Bye"]), served(r)) for r in reads),
+        "after-the-end-of-input,-a-read-error,-a-failed-handler-or-Bye-nothing-more-is-read-or-dispatched-(no-spinning)": _all(
+            z3.Implies(z3.And(r["guard"], z3.Or(z3.Not(r["ok"]), z3.Not(r["some"]), r["kind"] == RQ["Bye"])), _all(z3.Not(c["guard"]) for c in reads + handlers + writes if c["seq"] > r["seq"]))
+            for r in reads) if reads else z3.BoolVal(False),
+        "a-failed-handler-or-reply-ends-the-session-with-an-error": z3.And(
+            _all(z3.Implies(z3.And(h["guard"], z3.Not(h["ok"])), z3.And(z3.Not(ok), _all(z3.Not(c["guard"]) for c in reads + handlers + writes if c["seq"] > h["seq"]))) for h in handlers + writes)),
+        "exit-0-only-after-the-end-of-input-or-Bye": z3.Implies(ok, _any(z3.And(r["guard"], r["ok"], z3.Or(z3.Not(r["some"]), r["kind"] == RQ["Bye"])) for r in reads)),
+    }
+    prover.prove(ex, goals, "%s/serve" % pid,
+                 "sessions of up to %d frames, each an arbitrary Hello / Get / Put / Delete / Bye with symbolic fields (List: see C13's list-filter obligation); the prologue, "
+                 "every frame read, every handler and every reply may fail; read_magic, read_frame, write_frame and the handlers are summaries (each decided on its own)" % n_req,
+                 ["serve"], make_witness(R, pid, "serve"), covers={"two-frames-served": _any(z3.And(h["guard"], r["guard"]) for h in handlers for r in reads if r["seq"] > h["seq"])})
